@@ -160,8 +160,8 @@ let do_deallocall (i : inst) : unit =
   | Pool (c, s) -> s := pool_deallocall c !s
   | Heap (c, s, a, _) -> s := unres (hp_deallocall c !s); a := ha_deallocall !a
 
-(* hcfg_ok's lower bound 2*NODE + ALLOC_ALIGN <= size: below it the abstract model does not apply *)
-let heap_cfg_big_enough (c : hcfg) : bool = int_of_z c.h_size >= 80
+(* hcfg_ok's size clause, the check of add_memory_region: below it the abstract model does not apply *)
+let heap_cfg_big_enough (c : hcfg) : bool = int_of_z c.h_size >= int_of_z (zsub (heap_start c) c.h_base) + 64
 
 let do_reset (i : inst) : unit =
   match i with
